@@ -6,8 +6,9 @@ cd "$(dirname "$0")"
 export CARGO_NET_OFFLINE=true
 mkdir -p work replays evidence
 [ -f harness/Cargo.lock ] || cp /repo/Cargo.lock harness/Cargo.lock
-# the declaration table of C18 is generated from /repo's source (never taken from a previous run)
+# the declaration tables of C18 and C08/C09 are generated from /repo's source (never taken from a previous run)
 python3 tools/decls.py /repo/src lean/LruMem/Generated/Decls.lean || echo "setup: decls.py could not translate /repo/src (the C18 check will report it)"
+python3 tools/memdecls.py /repo/src lean/LruMem/Generated/MemDecls.lean || echo "setup: memdecls.py could not translate /repo/src/mem_size.rs (the C08/C09 checks will report it)"
 # the driver must build; the theorems are (re)built and audited by each check — a theorem that no longer
 # holds of a regenerated table is that check's finding, not a setup failure
 (cd lean && lake build lrudriver && (lake build LruMem || echo "setup: some Lean modules did not build (reported by the checks concerned)"))
